@@ -621,6 +621,81 @@ def theory_axioms(terms, extra_trig=False):
     return ax
 
 
+# A-table, second part: identities that relate *different* arguments of the uninterpreted circular functions.  They are not
+# instantiated automatically; a spec-level lemma asks for the instances it needs (contracts/sum_lemmas.py::Theory.axiom) and
+# lists them as trusted.  Each is a theorem of real analysis for all real arguments (integer n / winding).
+ATAN2_WINDING = z3.Function("atan2_winding", RealS, RealS, RealS, IntS)     # skolem function of "equal modulo 2 pi"
+
+
+def trig_addition_axioms(x, y):
+    """cos(x+y) = cos x cos y - sin x sin y,  sin(x+y) = sin x cos y + cos x sin y"""
+    c, s = UF1["cos"], UF1["sin"]
+    return [c(x + y) == c(x) * c(y) - s(x) * s(y), s(x + y) == s(x) * c(y) + c(x) * s(y)]
+
+
+def trig_period_axioms(x, n):
+    """cos / sin(x + 2 pi n) = cos / sin(x) for an integer term n"""
+    assert z3.is_int(n)
+    c, s = UF1["cos"], UF1["sin"]
+    return [c(x + 2 * PI * z3.ToReal(n)) == c(x), s(x + 2 * PI * z3.ToReal(n)) == s(x)]
+
+
+def trig_parity_axioms(x):
+    """cos(-x) = cos x, sin(-x) = -sin x"""
+    c, s = UF1["cos"], UF1["sin"]
+    return [c(-x) == c(x), s(-x) == -s(x)]
+
+
+def arctan2_rotation_axiom(a, b, phi):
+    """the angle of the vector (a, b) != 0 rotated by phi is its angle plus phi, modulo 2 pi:
+    arctan2(a sin phi + b cos phi, a cos phi - b sin phi) = arctan2(b, a) + phi + 2 pi n  for an integer n (= atan2_winding(a, b, phi))"""
+    c, s, at = UF1["cos"], UF1["sin"], UF2["arctan2"]
+    return z3.Implies(z3.Or(a != 0, b != 0),
+                      at(a * s(phi) + b * c(phi), a * c(phi) - b * s(phi)) == at(b, a) + phi + 2 * PI * z3.ToReal(ATAN2_WINDING(a, b, phi)))
+
+
+def arctan2_mirror_axioms(a, b):
+    """arctan2(-b, a) = -arctan2(b, a) except on the negative a-axis (b = 0, a < 0), where both are pi"""
+    at = UF2["arctan2"]
+    return [z3.Implies(z3.Or(b != 0, a >= 0), at(-b, a) == -at(b, a)), z3.Implies(z3.And(b == 0, a < 0), z3.And(at(-b, a) == PI, at(b, a) == PI))]
+
+
+# Optional abstraction of integer modulo by a *symbolic* divisor (obligation meta "abstract_int_mod", default off): every such
+# `x mod n` becomes mod_abs_sym(x, n) for one uninterpreted function, consistently in all formulas of the obligation (also under
+# quantifiers).  Any model of the original formulas is a model of the abstracted ones (interpret the symbol as mod), so `unsat`
+# is preserved; a `sat` answer is only a candidate (verify._has_abstractions knows the symbol).  Used by spec lemmas that carry
+# the facts about mod they need as explicit (proved) hypotheses: z3's own treatment of mod by a symbolic divisor is nonlinear
+# integer arithmetic and diverges on them.
+MOD_ABS_SYM = z3.Function("mod_abs_sym", IntS, IntS, IntS)
+
+
+def abstract_int_mod(fs):
+    memo = {}
+
+    def walk(t):
+        k = t.get_id()
+        if k in memo:
+            return memo[k][1]
+        if z3.is_quantifier(t):
+            n = t.num_vars()
+            vs = [z3.Const(Fresh.name("am_" + t.var_name(i).split("!")[0]), t.var_sort(i)) for i in range(n)]
+            body = walk(z3.substitute_vars(t.body(), *reversed(vs)))
+            r = (z3.ForAll if t.is_forall() else z3.Exists)(vs, body)
+        elif z3.is_app(t) and t.num_args() > 0:
+            ch = [walk(c) for c in t.children()]
+            if t.decl().kind() == z3.Z3_OP_MOD and not z3.is_int_value(t.arg(1)):
+                r = MOD_ABS_SYM(ch[0], ch[1])
+            elif all(c.eq(o) for c, o in zip(ch, t.children())):
+                r = t
+            else:
+                r = t.decl()(*ch)
+        else:
+            r = t
+        memo[k] = (t, r)       # keeps t alive: ids are recycled otherwise
+        return r
+    return [walk(f) for f in fs]
+
+
 # --------------------------------------------------------------------------- symbols
 class Fresh:
     n = 0
